@@ -48,6 +48,8 @@ type propRun struct {
 	engineEr []string
 }
 
+var inlineKinds = map[string]bool{"post": true, "inv-entry": true, "inv-step": true, "assert": true, "assert-anchor-missing": true}
+
 func obForProp(ob *Obligation, prop string) bool {
 	if len(ob.Tags) == 0 {
 		return true
@@ -59,8 +61,21 @@ func obForProp(ob *Obligation, prop string) bool {
 func rootsFor(db *ContractDB, prop string) []*Contract {
 	var cs []*Contract
 	for _, c := range db.byFunc {
-		if c.Trusted || c.Fn == nil || len(c.Fn.Blocks) == 0 || c.Inline {
-			continue // inline helpers are verified in the context of each caller
+		if c.Trusted || c.Fn == nil || len(c.Fn.Blocks) == 0 {
+			continue
+		}
+		if c.Inline {
+			// inline helpers are verified in the context of each caller; on their own only for
+			// postconditions that carry the property tag
+			own := false
+			for _, en := range c.Ensures {
+				if hasTag(en.Tags, prop) {
+					own = true
+				}
+			}
+			if !own {
+				continue
+			}
 		}
 		if contractProps(c)[prop] {
 			cs = append(cs, c)
@@ -133,9 +148,13 @@ func cmdCheck(args []string) int {
 		r := r
 		// keep only obligations relevant to this property (others are checked under their own property)
 		if r.Enc != nil {
+			inlineRoot := false
+			if ct := db.byFunc[r.key]; ct != nil && ct.Inline {
+				inlineRoot = true // an inline helper on its own: only its clauses tagged with the property
+			}
 			var items []item
 			for _, it := range r.Enc.items {
-				if it.ob != nil && it.ob.Kind != "cover" && !obForProp(it.ob, prop) {
+				if it.ob != nil && it.ob.Kind != "cover" && (!obForProp(it.ob, prop) || (inlineRoot && (!hasTag(it.ob.Tags, prop) || !inlineKinds[it.ob.Kind]))) {
 					continue
 				}
 				items = append(items, it)
@@ -143,7 +162,7 @@ func cmdCheck(args []string) int {
 			r.Enc.items = items
 			var obs []*Obligation
 			for _, ob := range r.Obs {
-				if ob.Kind == "cover" || obForProp(ob, prop) {
+				if ob.Kind == "cover" || (obForProp(ob, prop) && !(inlineRoot && (!hasTag(ob.Tags, prop) || !inlineKinds[ob.Kind]))) {
 					obs = append(obs, ob)
 				}
 			}
@@ -289,7 +308,8 @@ func report(run *propRun, w *World, db *ContractDB) int {
 	ev := map[string]interface{}{
 		"property_id": prop, "tier": run.tier, "seed": run.seed, "level": "proof",
 		"coverage": map[string]interface{}{
-			"obligations": nOb, "discharged": nDis + nKnown*0,
+			"obligations": nOb - nKnown, "discharged": nDis,
+			"obligations_matching_open_known_findings": nKnown,
 			"checker_cmd":              "z3-new -in -t:<ms> (z3 5.1.0) | z3 -in (4.8.12) | cvc5 --incremental (1.0.3); first definite answer, retries standalone on the others",
 			"trusted_base":             trustedBase(db, fns),
 			"functions_under_contract": fns,
@@ -306,10 +326,6 @@ func report(run *propRun, w *World, db *ContractDB) int {
 		"assumptions": assumptions,
 		"wall_s":      round3(time.Since(run.t0).Seconds()),
 		"violations":  nViol,
-	}
-	if nKnown > 0 {
-		// obligations matching open known findings are not discharged; a proof-level claim excludes them explicitly
-		ev["coverage"].(map[string]interface{})["obligations_excluding_known_findings"] = nOb - nKnown
 	}
 	if os.Getenv("GOVC_NOEVIDENCE") == "" {
 		_ = os.MkdirAll(filepath.Join(verifDir(), "evidence"), 0o755)
